@@ -9,7 +9,8 @@ from vlib import wenv
 PROPERTY = "C09"
 RULE = ("status strings, header names and header values drawn over the whole alphabet (CR, LF, NUL, other CTLs, DEL, obs-text, "
         "non-latin-1, empty, long; forbidden bytes at the start / middle / end) x hop-by-hop names in any case x websocket upgrade x "
-        "start_response programs (single call, second call with/without exc_info before/after the first write) x body x HTTP/1.0|1.1 "
+        "start_response programs (single call, second call with/without exc_info before/after the first write, optionally caught by the "
+        "application which then carries on with its first response) x body x HTTP/1.0|1.1 "
         "x worker class; oracle: if any status/name/value handed to an executed start_response contains CR/LF/NUL or a name is not a "
         "token, nothing of the application's head is on the wire (empty or exactly one server error page); otherwise the head is "
         "line-for-line [status-line, Server, Date, Connection, (Transfer-Encoding)] + one line per accepted header in order, "
@@ -85,6 +86,7 @@ def strategy(tier):
             "status": status_st(),
             "headers": headers_st,
             "cl": st.sampled_from([None, "exact"]),
+            "catch": st.sampled_from([False, False, True]),      # the application catches a refusal of this call and carries on
         })),
     })
 
@@ -186,7 +188,16 @@ def run_case(case):
     effective = (case["status"], h1)
     must_refuse = f1
     expect_close_after_head = False
-    if second_executed:
+    if second_executed and r.get("catch"):
+        caught = bool(rec and rec.get("restart_caught"))
+        if not caught and r["when"] == "before_write":
+            # the second call was accepted and replaces the first
+            f2 = forbidden(r["status"], r["headers"])
+            if f2:
+                must_refuse = "restart-" + f2
+            effective = (r["status"], r["headers"])
+        # else: refused and survived - the head is that of the first call, untouched by anything the refused call carried
+    elif second_executed:
         if r["when"] == "before_write":
             if r["exc_info"]:
                 f2 = forbidden(r["status"], r["headers"])
@@ -199,7 +210,7 @@ def run_case(case):
         else:
             # headers are on the wire already: the second call raises, the head stays that of call 1
             expect_close_after_head = True
-    classes = ["kind:" + kind, "forbidden:%s" % (must_refuse or "no"), "restart:%s" % (("%s/%s" % (r["when"], r["exc_info"])) if r else "no")]
+    classes = ["kind:" + kind, "forbidden:%s" % (must_refuse or "no"), "restart:%s" % (("%s/%s%s" % (r["when"], r["exc_info"], "/caught" if rec and rec.get("restart_caught") else "")) if r else "no")]
     nontrivial = bool(must_refuse) or bool(r) or bool(forbidden(r["status"], r["headers"]) if r else None)
     head_end = data.find(b"\r\n\r\n")
     if must_refuse:
